@@ -61,6 +61,34 @@ def options_reset_rules(prog, cg, reach, rep):
     f = prog.func(EQ, "Equilibrium.resetNonorthogonalOptions")
     ok = K("forregioninself.regions.values():region.resetNonorthogonalOptions(dict(self.nonorthogonal_options))") in T(f.module, f.node)
     rep.ob("R1", "the equilibrium propagates the evaluated options to every region", ok, f.site(), "", key="reset/propagate")
+    # an empty settings dict means "all defaults", not "no change": optional settings arguments are
+    # compared with None, never tested for truthiness
+    bad = []
+    nparams = 0
+    for f_ in prog.all_funcs():
+        a_ = f_.node.args
+        allargs = a_.posonlyargs + a_.args
+        dflt = dict(zip([x.arg for x in allargs[len(allargs) - len(a_.defaults):]], a_.defaults))
+        dflt.update({x.arg: d for x, d in zip(a_.kwonlyargs, a_.kw_defaults) if d is not None})
+        opt = {k for k, d in dflt.items() if isinstance(d, ast.Constant) and d.value is None and ("settings" in k or "options" in k)}
+        nparams += len(opt)
+        if not opt:
+            continue
+        for n_ in walk_own(f_.node):
+            if isinstance(n_, (ast.If, ast.While, ast.IfExp)):
+                stack = [n_.test]
+                while stack:
+                    x = stack.pop()
+                    if isinstance(x, ast.BoolOp):
+                        stack.extend(x.values)
+                    elif isinstance(x, ast.UnaryOp) and isinstance(x.op, ast.Not):
+                        stack.append(x.operand)
+                    elif isinstance(x, ast.Name) and x.id in opt:
+                        bad.append((f_, n_, x.id))
+    for f_, n_, nm in bad:
+        rep.ob("R1", "%s: optional argument `%s` is compared with None" % (f_.qualname, nm), False, f_.site(n_),
+               "`%s` is a truth test: an empty settings dict (all defaults) would be treated like no argument" % f_.module.code(n_.test)[:60], key="reset/truthiness/%s/%s" % (f_.qualname, nm))
+    rep.ob("R1", "no optional settings/options argument is tested for truthiness (%d such parameters)" % nparams, not bad, EQ, "", key="reset/truthiness/none")
     # one factory: the equilibrium's per-instance factory (its defaults are derived from the
     # user options) is the one the regions use, on the first build and on every reset
     ei = prog.func(EQ, "Equilibrium.__init__")
@@ -74,6 +102,45 @@ def options_reset_rules(prog, cg, reach, rep):
     ok = len(bind) == 1 and T(ri.module, bind[0].value) == "self.equilibrium.nonorthogonal_options_factory" and bool(use) and bind[0].lineno < use[0].lineno
     rep.ob("R1", "a region takes the equilibrium's per-instance factory before it first evaluates options (so a later reset resolves unset keys exactly as the first build did)", ok,
            ri.site(bind[0]) if bind else ri.site(), "" if ok else "no `self.nonorthogonal_options_factory = self.equilibrium.nonorthogonal_options_factory` before the first create(): the class-level factory (fixed defaults) would be used by resets", key="reset/factory/region")
+
+
+def cache_rules(prog, rep):
+    """every PsiContour method that changes the point list invalidates (or replaces) the cached
+    distance (also a premise of C05: hy and poloidal_distance are read from that cache)"""
+    mod = prog.module(EQ)
+    n = 0
+    for qn, f in sorted(mod.funcs.items()):
+        if f.cls != "PsiContour" or qn != "PsiContour." + f.name or f.name in ("__init__",):
+            continue
+        changes_points = False
+        for x in walk_own(f.node):
+            if isinstance(x, ast.Assign) and any(is_self_attr(t, "points") for t in x.targets):
+                changes_points = True
+            if isinstance(x, ast.Assign) and any(isinstance(t, ast.Subscript) and is_self_attr(t.value, "points") for t in x.targets):
+                changes_points = True
+            if isinstance(x, ast.Call) and isinstance(x.func, ast.Attribute) and is_self_attr(x.func.value, "points") and x.func.attr in ("append", "insert", "reverse", "pop", "remove", "extend", "sort"):
+                changes_points = True
+        if not changes_points:
+            continue
+        n += 1
+        src = T(mod, f.node)
+        inval = K("self._reset_cached()") in src or K("self._distance=None") in src or K("self._distance=") in src
+        rep.ob("R3", "%s changes the point list and invalidates or replaces the cached distance" % qn, inval, f.site(), "", key="cache/" + qn)
+    rep.floor("R3.mutators", n, 7)
+    rc = mod.funcs.get("PsiContour._reset_cached")
+    ok = rc is not None and K("self._fine_contour=None") in T(mod, rc.node) and K("self._distance=None") in T(mod, rc.node)
+    rep.ob("R3", "_reset_cached drops both the fine contour and the distance", ok, rc.site() if rc else EQ, "", key="cache/reset")
+    for prop_ in ("startInd", "endInd", "extend_lower", "extend_upper"):
+        setters = [f for qn, f in mod.funcs.items() if f.cls == "PsiContour" and f.name == prop_ and len(f.node.args.args) == 2]
+        ok = bool(setters) and "ifself._%s!=val:self._reset_cached()self._%s=val" % (prop_, prop_) in T(mod, setters[-1].node)
+        rep.ob("R3", "setting %s resets the caches when the value changes" % prop_, ok, setters[-1].site() if setters else EQ, "", key="cache/setter/" + prop_)
+    rg = mod.funcs.get("PsiContour.regrid")
+    ok = rg is not None and K("self.setSelfToContour(self.getRegridded(*args,**kwargs))") in T(mod, rg.node)
+    rep.ob("R3", "regrid replaces the whole state through the state-copying setter", ok, rg.site() if rg else EQ, "", key="cache/regrid")
+    sc = mod.funcs.get("PsiContour.setSelfToContour")
+    want = ["points", "startInd", "endInd", "_distance", "psival", "extend_lower", "extend_upper", "_fine_contour"]
+    got = sorted(stores(sc))
+    rep.ob("R3", "the state-copying setter copies points, indices, extensions and both caches together", all(a in got for a in want), sc.site(), str(got), key="cache/copy-state")
 
 
 def run(rep, tier):
@@ -122,41 +189,7 @@ def run(rep, tier):
     d = prog.func(MESH, "MeshRegion.distributePointsNonorthogonal")
     ok = "self.sfunc_orthogonal_list" in T(d.module, d.node) and "sfunc_orthogonal_list" not in stores(d)
     rep.ob("R2", "redistribution reads the stored orthogonal spacing functions and does not rebuild them", ok, d.site(), "", key="firstbuild/sfunc-read")
-    # R3
-    mod = prog.module(EQ)
-    n = 0
-    for qn, f in sorted(mod.funcs.items()):
-        if f.cls != "PsiContour" or qn != "PsiContour." + f.name or f.name in ("__init__",):
-            continue
-        changes_points = False
-        for x in walk_own(f.node):
-            if isinstance(x, ast.Assign) and any(is_self_attr(t, "points") for t in x.targets):
-                changes_points = True
-            if isinstance(x, ast.Assign) and any(isinstance(t, ast.Subscript) and is_self_attr(t.value, "points") for t in x.targets):
-                changes_points = True
-            if isinstance(x, ast.Call) and isinstance(x.func, ast.Attribute) and is_self_attr(x.func.value, "points") and x.func.attr in ("append", "insert", "reverse", "pop", "remove", "extend", "sort"):
-                changes_points = True
-        if not changes_points:
-            continue
-        n += 1
-        src = T(mod, f.node)
-        inval = K("self._reset_cached()") in src or K("self._distance=None") in src or K("self._distance=") in src
-        rep.ob("R3", "%s changes the point list and invalidates or replaces the cached distance" % qn, inval, f.site(), "", key="cache/" + qn)
-    rep.floor("R3.mutators", n, 7)
-    rc = mod.funcs.get("PsiContour._reset_cached")
-    ok = rc is not None and K("self._fine_contour=None") in T(mod, rc.node) and K("self._distance=None") in T(mod, rc.node)
-    rep.ob("R3", "_reset_cached drops both the fine contour and the distance", ok, rc.site() if rc else EQ, "", key="cache/reset")
-    for prop_ in ("startInd", "endInd", "extend_lower", "extend_upper"):
-        setters = [f for qn, f in mod.funcs.items() if f.cls == "PsiContour" and f.name == prop_ and len(f.node.args.args) == 2]
-        ok = bool(setters) and "ifself._%s!=val:self._reset_cached()self._%s=val" % (prop_, prop_) in T(mod, setters[-1].node)
-        rep.ob("R3", "setting %s resets the caches when the value changes" % prop_, ok, setters[-1].site() if setters else EQ, "", key="cache/setter/" + prop_)
-    rg = mod.funcs.get("PsiContour.regrid")
-    ok = rg is not None and K("self.setSelfToContour(self.getRegridded(*args,**kwargs))") in T(mod, rg.node)
-    rep.ob("R3", "regrid replaces the whole state through the state-copying setter", ok, rg.site() if rg else EQ, "", key="cache/regrid")
-    sc = mod.funcs.get("PsiContour.setSelfToContour")
-    want = ["points", "startInd", "endInd", "_distance", "psival", "extend_lower", "extend_upper", "_fine_contour"]
-    got = sorted(stores(sc))
-    rep.ob("R3", "the state-copying setter copies points, indices, extensions and both caches together", all(a in got for a in want), sc.site(), str(got), key="cache/copy-state")
+    cache_rules(prog, rep)
     rep.notes.append("advisory: getRegridded -> temporaryExtend -> prepend/append resets the fine contour when guard points are added, so the fine contour is rebuilt from the current (history-dependent) coarse points; equality holds only within the refinement tolerance and is not decidable statically")
     rep.undecided("equality within tolerance of regridded and freshly built grids")
     return __doc__
